@@ -11,8 +11,10 @@ BUILT = set(os.environ.get('BUILT', 'C01,C03,C10,C11,C12,C17,C18').split(','))
 LEVEL_TEXT = {
     'C01': ('Seeded search over histories of in-place arithmetic on a pool of '
             'live elements (all five identity-aliasing patterns, size regimes '
-            'around both thresholds, dtypes, layouts, product spaces with '
-            'shared parts) with allocator/out-buffer garbage injected; every '
+            'around both thresholds, dtypes incl. float16 / int16 / '
+            'byte-swapped, C/F/strided layouts, weighted and exponent-p '
+            'spaces, product spaces with shared parts, sub-elements, a few '
+            '+-inf/NaN entries) with allocator/out-buffer garbage injected; every '
             'operation is checked against an independent value model, '
             'non-output operands bitwise, and re-executed under a second '
             'garbage kind. Exploration, not proof: the identity-pattern x '
@@ -24,7 +26,9 @@ LEVEL_TEXT = {
             'into out buffers, fresh allocations and caller scratch; oracle: '
             'in-place == out-of-place, input bitwise untouched, result in '
             'range / returned object is out, long-lived instance == fresh '
-            'replica, rejection before any write.', '4/C03'),
+            'replica, rejection before any write. Pool elements and outs '
+            'come in C / Fortran / strided layouts and with structured value '
+            'patterns (zero element, vanishing points, ties).', '4/C03'),
     'C10': ('For every proximal the library can produce (factories x options, '
             'Functional.proximal / convex_conj.proximal incl. derived '
             'functionals) and the listed solver building blocks: aliased '
@@ -43,7 +47,8 @@ LEVEL_TEXT = {
             'monotonicity, He-Yuan distance for PDHG), fixed-point checks at '
             'constructed saddle points, and bounded liveness (eps-KKT '
             'residual below 1e-3 of start within 3000 iterations after the '
-            'last injected fault), over seeded instances, RNG states, forced '
+            'last injected fault; 30000 for an iterate already within 1e-3 '
+            'of a verified KKT point), over seeded instances, RNG states, forced '
             'permutation schedules and iterate-perturbation faults.', '4/C12'),
     'C17': ('Stateful part of the property only: histories of writes through '
             'any handle (raw array, wrapping elements, asarray views, '
@@ -55,14 +60,17 @@ LEVEL_TEXT = {
             'temporaries, init/clear FFTW plan, in-place and out-of-place '
             'calls, wisdom kept or forgotten, scribbled temporaries, garbage '
             'in out and planning buffers) checked call by call against '
-            'numpy.fft on a copy, a fresh replica and the other back-end. '
-            'DFT/FT clauses only.', '4/C18'),
+            'numpy.fft on a copy, a direct-sum model of the continuous '
+            'transform, a fresh replica and the other back-end; pool elements '
+            'and outs in C / Fortran / strided layouts, every element the '
+            'caller holds checked after every operation. DFT/FT clauses '
+            'only.', '4/C18'),
 }
 
 LEVEL_NOTE = {
-    'C01': 'Trusted: the longdouble/exact-integer value model, NumPy itself. Non-finite operand values and float scalars on integer spaces are outside the explored domain (contract-ambiguous).',
+    'C01': 'Trusted: the longdouble/exact-integer value model (IEEE arithmetic for the runs with +-inf/NaN entries, where a term with an exactly zero scalar may be dropped and x1 is x2 may be evaluated as (a+b)*x1), NumPy itself. Complex non-finite values, powers of non-finite entries, longdouble and float scalars on integer spaces are outside the explored domain.',
     'C03': 'Trusted: recipe table (classes without a recipe are listed in the evidence as uncovered), tolerance 64 eps between legitimately different code paths. ASTRA back-ends absent in the sandbox.',
-    'C10': 'Trusted: the non-aliased call P(x) as reference (its own correctness is C07, not claimed). Covered set is the explicit class list in DESIGN 4/C10.',
+    'C10': 'Trusted: the non-aliased call P(x) as reference (its own correctness is C07, not claimed). Covered set is the explicit class list in DESIGN 4/C10. An out that is an element the operator itself holds (its translation, data term ...) is measured, not judged (DESIGN section 11, seed t10).',
     'C11': 'Trusted: the shipped _simple solvers as reference; instances limited to dimension <= 8, exact adjoints, admissible steps. Default (power-method) step sizes are excluded from the resumption oracle because they legitimately differ between segments.',
     'C12': 'Trusted: harness-side dense linear algebra (SVD norms, exact solutions), closed-form sub-differentials of the generated functional families, easy-instance filter by an independent NumPy PDHG. A slower-but-convergent update rule is not a violation of the property as stated.',
     'C17': 'Decides only the stateful clauses (out=, shared memory, asarray round trip, operand mixing) plus bit-identity with NumPy as a by-product; weight propagation of reduced spaces is not judged.',
